@@ -95,6 +95,8 @@ type URICase struct {
 	Raw    Q      `json:"raw"`
 	Args   []Pair `json:"args,omitempty"`
 	Hash   Q      `json:"hash"`
+	// NoNorm: DisablePathNormalizing is set (the path is given in wire form and formatted verbatim)
+	NoNorm bool `json:"no_norm,omitempty"`
 }
 
 type CookieCase struct {
@@ -551,6 +553,7 @@ func buildURI(uc *URICase) *protocol.URI {
 	}
 	u.SetScheme(string(uc.Scheme))
 	u.SetHost(string(uc.Host))
+	u.DisablePathNormalizing = uc.NoNorm
 	u.SetPath(string(uc.Path))
 	switch uc.QMode {
 	case "raw":
@@ -589,6 +592,9 @@ func uriKey(uc *URICase, stage, comp string) string {
 		}
 		return "uri|SetQueryString-after-QueryArgs-use|" + stage
 	}
+	if uc.NoNorm {
+		stage = "verbatim-path|" + stage
+	}
 	if comp == "" {
 		return "uri|" + stage
 	}
@@ -618,6 +624,9 @@ func checkURI(c *mc.Ctx, st *stats, uc *URICase) {
 			q = "query args " + fmtList(uc.Args)
 		} else if uc.QMode == "none" {
 			q = "no query"
+		}
+		if uc.NoNorm {
+			q += ", DisablePathNormalizing"
 		}
 		return fmt.Sprintf("URI (%s) scheme=%q host=%q path=%q %s fragment=%q", uc.Hist, string(uc.Scheme), string(uc.Host), string(uc.Path), q, string(uc.Hash))
 	}
@@ -682,6 +691,7 @@ func checkURI(c *mc.Ctx, st *stats, uc *URICase) {
 			c.Violate(uriKey(uc, "roundtrip-"+tag, comp), fmt.Sprintf("%s: FullURI()=%q; Parse of it gives %+v, want %+v", desc(), full, got, want), cs)
 			return
 		}
+		p.DisablePathNormalizing = uc.NoNorm // a formatting option: the copy is formatted the way the original was
 		full2 := append([]byte(nil), p.FullURI()...)
 		if !bytes.Equal(full2, full) {
 			c.Violate(uriKey(uc, "not-a-fixed-point-"+tag, ""), fmt.Sprintf("%s: FullURI()=%q; Parse + FullURI gives %q", desc(), full, full2), cs)
@@ -1141,6 +1151,7 @@ type uriCtx struct {
 	path, raw, hash string
 	args            []Pair
 	qmode           string
+	nonorm          bool
 }
 
 func enumURI(c *mc.Ctx) {
@@ -1175,7 +1186,7 @@ func enumURI(c *mc.Ctx) {
 				if expired(c, st.exec) {
 					return
 				}
-				checkURI(c, st, &URICase{Hist: sh.hist, Scheme: Q(sh.scheme), Host: Q(sh.host), Path: Q(x.path), QMode: x.qmode, Raw: Q(x.raw), Args: x.args, Hash: Q(x.hash)})
+				checkURI(c, st, &URICase{Hist: sh.hist, Scheme: Q(sh.scheme), Host: Q(sh.host), Path: Q(x.path), QMode: x.qmode, Raw: Q(x.raw), Args: x.args, Hash: Q(x.hash), NoNorm: x.nonorm})
 			}
 		})
 		c.Extra("uri_"+tag+"_cases", len(cases)*len(shapes))
@@ -1248,6 +1259,19 @@ func enumURI(c *mc.Ctx) {
 		js = []shape{{"http", "h", "fresh"}, {"https", "h:8080", "reused-args"}}
 	}
 	run("joint", cases, js)
+
+	// DisablePathNormalizing: the path is in wire form already (unreserved bytes, escapes, sub-delimiters) and is formatted
+	// verbatim; with or without its leading slash it must stay the path and must not run into the host
+	wireAlpha := []string{"a", "/", ".", "%41", "%2f", "4", ":", "@", "~", "%"}
+	cases = nil
+	for _, p := range stringsUpTo(wireAlpha, n+1) {
+		for _, q := range ctxQuery[:2] {
+			for _, h := range ctxHash[:2] {
+				cases = append(cases, uriCtx{path: p, qmode: q.mode, raw: q.raw, hash: h, nonorm: true})
+			}
+		}
+	}
+	run("verbatim", cases, shapes[:len(schemes)*len(hosts)])
 	c.Extra("uri_component_max_symbols", n)
 	c.Extra("uri_joint_max_symbols", joint)
 }
